@@ -197,7 +197,8 @@ func CanonJSON(v any) string {
 // ValueSet returns the JSON values of the given size class: 0 = scalars only, 1 = arrays/objects of
 // up to 2 members incl. duplicates and one nested level, 2 = up to 3 members.
 func ValueSet(size int) []any {
-	scalars := []any{nil, false, true, 0.0, 1.0, 2.0, -1.0, 1.5, 0.5, "", "a", "ab", "b", "\U0001D11E"}
+	// strings: every length around the bounds 1 and 2, in one-byte and in multi-byte characters (byte length != character count)
+	scalars := []any{nil, false, true, 0.0, 1.0, 2.0, -1.0, 1.5, 0.5, "", "a", "ab", "b", "\U0001D11E", "\u00e9", "\u00e9\u00e9", "b\u00e9b"}
 	out := append([]any{}, scalars...)
 	if size == 0 {
 		return out
